@@ -23,6 +23,7 @@ import (
 	"github.com/TarsCloud/TarsGo/tars/protocol/codec"
 	"github.com/TarsCloud/TarsGo/tars/protocol/res/basef"
 	"github.com/TarsCloud/TarsGo/tars/protocol/res/requestf"
+	"github.com/TarsCloud/TarsGo/tars/util/current"
 )
 
 type c15Sent struct {
@@ -201,7 +202,13 @@ func (r *c15Run) e2eCall(op *c15Op, last bool) []string {
 	if op.OneWay {
 		cType = byte(basef.TARSONEWAY)
 	}
-	err := r.sp.TarsInvoke(context.Background(), cType, "ping", nil, nil, nil, &resp)
+	ctx := context.Background()
+	if op.Hash != 0 { // a hashed call: mod-hash (0) / consistent-hash (1) through the public client context
+		ctx = current.ContextWithTarsCurrent(ctx)
+		current.SetClientHash(ctx, op.Hash-1, op.Code)
+	}
+	err := r.sp.TarsInvoke(ctx, cType, "ping", nil, nil, nil, &resp)
+	qAfter := uint64(r.mgr.ProbeQueueLen())
 	c15LastMsg.mu.Lock()
 	msg := c15LastMsg.msg
 	c15LastMsg.mu.Unlock()
@@ -218,7 +225,9 @@ func (r *c15Run) e2eCall(op *c15Op, last bool) []string {
 	}
 	ai, _ := r.idOf(adp)
 	sh := r.sh[ai]
-	probe := expectProbe
+	// the call carried the queued probe iff the queue lost its head (nothing else touches the queue during a call)
+	probe := expectProbe && qAfter+1 == before.q
+	r.monCarried(op, before, probe)
 	// the outcome in the property's terms: was the call ANSWERED (whatever the return code of the answer)?
 	// doInvoke replaces msg.Resp by the received packet exactly when a reply arrived before the deadline.
 	ok := msg.Resp != nil && msg.Resp != &resp
@@ -357,6 +366,21 @@ func c15E2EGenOne(rng *rand.Rand, i int) c15Case {
 	case 3, 4:
 		b.ow = 1
 		b.name = "oneway-only "
+	}
+	// routing mix: plain only / plain and hashed mixed / hashed only (mod-hash, consistent-hash or both)
+	switch rng.Intn(10) {
+	case 0, 1, 2:
+		b.hp, b.hk = 0.5, 0
+		b.name += "mixed-hash "
+	case 3:
+		b.hp, b.hk = 1, 1
+		b.name += "modhash-only "
+	case 4:
+		b.hp, b.hk = 1, 2
+		b.name += "conhash-only "
+	case 5:
+		b.hp, b.hk = 1, 0
+		b.name += "hashed-only "
 	}
 	n := 1 + rng.Intn(3)
 	perm := rng.Perm(c15Universe)
@@ -591,6 +615,36 @@ func c15E2ECorpus() []c15Case {
 			b.call(0, 0, false) // a two-way probe (if one is queued) is answered: back
 			b.call(0, 0, false)
 			b.check()
+		})
+	}
+	// hashed traffic only: the due probe must be carried by the next call whatever its routing kind, and the endpoint
+	// comes back once that probe is answered
+	for _, kind := range []int{1, 2} {
+		kind := kind
+		mk(fmt.Sprintf("e2e-hashed-only-probe(kind=%d)", kind), func(b *c15B) {
+			b.hp, b.hk = 1, kind
+			b.refresh([]int{0, 1, 2})
+			for i := 0; i < 12; i++ {
+				b.call(0, 0, false)
+			}
+			b.up(1, false)
+			for i := 0; i < 40; i++ {
+				b.call(0, 0, false)
+			}
+			b.adv(5)
+			b.check()
+			for i := 0; i < 4; i++ {
+				b.call(0, 0, false)
+			}
+			b.up(1, true)
+			b.adv(30)
+			b.check()
+			b.call(0, 0, false) // hashed, carries the probe
+			b.call(0, 0, false)
+			b.check()
+			for i := 0; i < 6; i++ {
+				b.call(0, 0, false)
+			}
 		})
 	}
 	// slow, not dead: after good calls every answer of endpoint 1 leaves after the caller's deadline
